@@ -236,6 +236,28 @@ def analyse_map_reader(fn, facts, start_name="read_map_start"):
                 isinstance(unwrap(u.get("recv")), dict) and unwrap(u.get("recv")).get("k") == "This":
             mr.reset_first = callee_name(u)
             break
+    if mr.reset_first is None and fn.get("cls") and facts is not None and fn["cls"] in facts.records:
+        # the same thing member by member: before the loop every data member receives a value that does not come from the input
+        fields = [f_["n"] for f_ in facts.records[fn["cls"]].get("fields", [])]
+        done = set()
+        for s in top:
+            if isinstance(s, dict) and s.get("k") in ("While", "For", "Do", "RangeFor"):
+                break
+            u = unwrap(s)
+            if not isinstance(u, dict):
+                continue
+            tgt = rhs = None
+            if u.get("k") == "Bin" and u.get("op") == "=":
+                tgt, rhs = path(u.get("lhs")), u.get("rhs")
+            elif u.get("k") == "OpCall" and u.get("op") == "=" and len(u.get("args", [])) == 2:
+                tgt, rhs = path(u["args"][0]), u["args"][1]
+            elif u.get("k") == "MCall" and callee_name(u) in ("clear", "reset") and not u.get("args"):
+                tgt = path(u.get("recv"))
+            if tgt and len(tgt) == 2 and tgt[0] == "this" and tgt[1] in fields and \
+                    (rhs is None or not any(x.get("k") in ("MCall", "Call") and decoder_call(x) for x in ir.walk(rhs))):
+                done.add(tgt[1])
+        if fields and all(f_ in done for f_ in fields):
+            mr.reset_first = "member-wise"
     # the start call and its variables
     starts = [c for c in ir.calls_in(fn["body"]) if decoder_call(c) == start_name]
     if len(starts) != 1:
